@@ -174,6 +174,11 @@ func (server *SugarDB) handleCommand(ctx context.Context, message []byte, conn *
 	if !server.isInCluster() || !synchronize {
 		res, err := handler(server.getHandlerFuncParams(ctx, cmd, conn))
 		if err != nil {
+			// The command is over: a failed write must not leave the mutation flag set, or state
+			// copies (SAVE, REWRITEAOF) would wait forever.
+			if internal.IsWriteCommand(command, subCommand) {
+				server.stateMutationInProgress.Store(false)
+			}
 			return nil, err
 		}
 
